@@ -90,7 +90,8 @@ PROPS["C04"] = {
     "assumptions": CRASH_ASSUMPTIONS,
     "required_classes": ["quiescent_states_checked", "crash_images", "crash_images_with_half_freed_inode"],
     "units": [
-        {"test": "^TestC04Seq$", "quick": {"checks": 60, "shards": 6}, "thorough": {"checks": 800, "shards": 8, "steps": 60}},
+        {"test": "^TestC04Seq$", "quick": {"checks": 60, "shards": 4}, "thorough": {"checks": 800, "shards": 8, "steps": 60}},
+        {"test": "^TestC04Full$", "quick": {"checks": 40, "shards": 4, "steps": 40}, "thorough": {"checks": 500, "shards": 8, "steps": 60}},
         {"test": "^TestC04Crash$", "quick": {"checks": 5, "shards": 2, "procs": 5, "timeout": 600},
          "thorough": {"checks": 60, "shards": 4, "procs": 4, "timeout": 7200}},
     ],
@@ -122,7 +123,8 @@ PROPS["C12"] = {
     "assumptions": CRASH_ASSUMPTIONS,
     "required_classes": ["case_reusing_freed_blocks", "case_unaligned_shrink_then_growth", "fsck_free_block_scans", "crash_images"],
     "units": [
-        {"test": "^TestC12Seq$", "quick": {"checks": 80, "shards": 8}, "thorough": {"checks": 1200, "shards": 12, "steps": 60}},
+        {"test": "^TestC12Seq$", "quick": {"checks": 80, "shards": 6}, "thorough": {"checks": 1200, "shards": 12, "steps": 60}},
+        {"test": "^TestC12Full$", "quick": {"checks": 40, "shards": 4, "steps": 40}, "thorough": {"checks": 500, "shards": 8, "steps": 60}},
         {"test": "^TestC12Crash$", "quick": {"checks": 4, "shards": 2, "procs": 4, "timeout": 600},
          "thorough": {"checks": 50, "shards": 4, "procs": 4, "timeout": 7200}},
     ],
@@ -197,5 +199,18 @@ PROPS["C17"] = {
         {"test": "^TestC17Seq$", "oom_is_violation": True, "quick": {"checks": 60, "shards": 8}, "thorough": {"checks": 1500, "shards": 12}},
         {"test": "^TestC17Conc$", "quick": {"checks": 100, "shards": 4}, "thorough": {"checks": 2500, "shards": 8}},
         {"test": "^TestC17Crash$", "quick": {"checks": 8, "shards": 2, "procs": 4}, "thorough": {"checks": 150, "shards": 4, "procs": 4, "timeout": 7200}},
+    ],
+}
+
+PROPS["C09"] = {
+    "level": "exploration",
+    "technique": "model-based stateful PBT (rapid) on nearly-full disks and a nearly-exhausted inode table with a before/after identity oracle for every failed request (allocators, on-disk bitmaps, cache-vs-disk coherence, whole tree), the reference model carried through the suffix and a restart, fsck at the end",
+    "level_text": "Disks with 60-600 data blocks, and in 1/5 of the cases an image whose inode table is exhausted up to 0..3 inodes (32k prefilled files, built once per process). A fill action leaves exactly 0..3 free blocks (steered by the allocator's free count); requests are chosen to fail after they have started to modify state: RENAME to a name the directory layer refuses after the source entry is removed, RENAME/CREATE into a directory whose last block is exactly full, CREATE/MKDIR/SYMLINK without blocks or inodes, appends that obtain an indirect block but no data block, multi-block writes that run out half-way (short writes are followed), symlink targets and writes larger than the journal. After every request that returned an error: the allocators' free counts and the on-disk bitmaps are identical to before, every cached inode and name table equals the disk, and the whole tree equals the reference (which ignored the request); the history continues, and at the end the reference still matches, also after a restart, and fsck and the coherence check pass.",
+    "level_note": "Whether a feasible request fails for lack of resources is decided by the server's status (the reference does not model free space); a wrong status as such is C02's subject. Reads of holes on a full disk are not generated (they end early rather than fail).",
+    "rule": ("unit = one history. Non-trivial (counted per failed request): the fstxn abort hook saw the aborted transaction with dirty buffers, i.e. the request failed after it had started to modify state. distinct = FNV hash of (request, disk size, position in the history)."),
+    "assumptions": COMMON_ASSUMPTIONS,
+    "required_classes": ["failed_requests_checked_for_traces", "aborted_transactions_that_had_modified_state", "requests_failed_for_lack_of_resources", "case_with_nearly_exhausted_inode_table", "requests_refused_by_the_journal"],
+    "units": [
+        {"test": "^TestC09Full$", "quick": {"checks": 40, "shards": 8, "steps": 40}, "thorough": {"checks": 700, "shards": 12, "steps": 60}},
     ],
 }
